@@ -38,6 +38,11 @@ func ExploreDPOR(setup Setup, body func(), visit Visit, deadline time.Time) Stat
 			setup()
 		}
 		s := Run(d, body)
+		if restartPure(s) {
+			r := ExploreDPOR(setup, body, visit, deadline)
+			r.Execs += st.Execs + 1
+			return r
+		}
 		st.Execs++
 		st.Transitions += s.StepCount()
 		if s.Outcome == "horizon" {
@@ -95,6 +100,11 @@ func ExploreNaive(setup Setup, body func(), visit Visit, cache bool, delayBound 
 			setup()
 		}
 		s := Run(&Prefix{Choices: p, Visited: vfn}, body)
+		if restartPure(s) {
+			r := ExploreNaive(setup, body, visit, cache, delayBound, deadline)
+			r.Execs += st.Execs + 1
+			return r
+		}
 		st.Execs++
 		st.Transitions += s.StepCount()
 		if s.Outcome == "horizon" {
@@ -149,7 +159,11 @@ func RunOnce(setup Setup, body func(), choices []int) *Sched {
 	if setup != nil {
 		setup()
 	}
-	return Run(&Prefix{Choices: choices}, body)
+	s := Run(&Prefix{Choices: choices}, body)
+	if restartPure(s) {
+		return RunOnce(setup, body, choices)
+	}
+	return s
 }
 
 // Replay re-executes a recorded execution; any divergence from the recording panics.
@@ -161,5 +175,9 @@ func Replay(setup Setup, body func(), rec []Choice) *Sched {
 	if setup != nil {
 		setup()
 	}
-	return Run(&Prefix{Choices: idx, Strict: true, Expect: rec}, body)
+	s := Run(&Prefix{Choices: idx, Strict: true, Expect: rec}, body)
+	if restartPure(s) {
+		return Replay(setup, body, rec)
+	}
+	return s
 }
